@@ -87,7 +87,7 @@ func (f *Disassemble) disassembleLambda(s *slip.Scope, lam *slip.Lambda, right i
 		b = append(b, da.Name...)
 	}
 	b = append(b, ')', '\n')
-	p := slip.DefaultPrinter()
+	p := *slip.DefaultPrinter()
 	p.ScopedUpdate(s)
 	p.RightMargin = uint(right)
 	p.ANSI = ansi
